@@ -140,3 +140,12 @@ func (vc *VC) nameQuantLet(name string, v SVal) SVal {
 	v.S = n
 	return v
 }
+
+func hasPlainTag(tags []string, p string) bool {
+	for _, t := range tags {
+		if t == p {
+			return true
+		}
+	}
+	return false
+}
